@@ -1,5 +1,7 @@
 package interp
 
+import "strings"
+
 // Feasibility of PC ∧ extra, decided in three stages of increasing cost:
 //
 //  1. exact value-set reasoning for conditions over a single 8-bit or Bool
@@ -128,21 +130,43 @@ func (i *interpreter) flushSolver() {
 }
 
 // feasible decides PC ∧ extra. On Sat the returned model satisfies both.
+// Answers of the fast stages are cross-checked against z3 for every assertion
+// query and for a sample of the branch queries; a disagreement is inconclusive.
 func (i *interpreter) feasible(extra *Term, what string) (SatResult, map[string]uint64) {
+	res, m, fast := i.feasible1(extra, what)
+	if fast && !extra.isConst() {
+		st := &i.eng.stats[i.id]
+		st.fastAnswers++
+		if strings.HasPrefix(what, "assertion") || st.fastAnswers%64 == 0 {
+			i.flushSolver()
+			r2, _, err := i.solver.Check(extra, nil)
+			st.crossChecked++
+			if err != nil || r2 == Unknown {
+				i.abort("solver inconclusive on cross-check of %s: %v %v", what, r2, err)
+			}
+			if r2 != res {
+				i.abort("value-set/model-cache answer %v disagrees with z3 answer %v on %s: %s", res, r2, what, extra.String())
+			}
+		}
+	}
+	return res, m
+}
+
+func (i *interpreter) feasible1(extra *Term, what string) (SatResult, map[string]uint64, bool) {
 	p := i.path
 	st := &i.eng.stats[i.id]
 	if extra.isConst() {
 		if extra.val == 0 {
-			return Unsat, nil
+			return Unsat, nil, true
 		}
-		return Sat, copyModel(p.model)
+		return Sat, copyModel(p.model), true
 	}
 	if !extra.many && len(extra.vars) == 1 && smallVar(extra.vars[0]) {
 		v := extra.vars[0]
 		s := i.satSet(extra, v)
 		if s.empty() {
 			st.domUnsat++
-			return Unsat, nil
+			return Unsat, nil, true
 		}
 		if !p.ent[v.id] {
 			st.domSat++
@@ -151,7 +175,7 @@ func (i *interpreter) feasible(extra *Term, what string) (SatResult, map[string]
 			if !s.has(cur) {
 				m[v.name] = s.first()
 			}
-			return Sat, m
+			return Sat, m, true
 		}
 		// entangled: try to repair the current model by changing v alone
 		m := copyModel(p.model)
@@ -164,18 +188,18 @@ func (i *interpreter) feasible(extra *Term, what string) (SatResult, map[string]
 			m[v.name] = x
 			if i.satisfies(m, extra) {
 				st.cacheSat++
-				return Sat, m
+				return Sat, m, true
 			}
 		}
 	}
 	if i.satisfies(p.model, extra) {
 		st.cacheSat++
-		return Sat, copyModel(p.model)
+		return Sat, copyModel(p.model), true
 	}
 	for _, m := range i.models {
 		if i.satisfies(m, extra) {
 			st.cacheSat++
-			return Sat, copyModel(m)
+			return Sat, copyModel(m), true
 		}
 	}
 	i.flushSolver()
@@ -197,10 +221,11 @@ func (i *interpreter) feasible(extra *Term, what string) (SatResult, map[string]
 		}
 		i.modelNext++
 	}
-	return res, m
+	return res, m, false
 }
 
 type fastStats struct {
 	domSat, domUnsat, cacheSat int
-	_                          [5]int // padding against false sharing
+	fastAnswers, crossChecked  int
+	_                          [3]int // padding against false sharing
 }
